@@ -1061,7 +1061,6 @@ class RunBundler:
                     "and EventPageCollectable. Using device.collect_pages().",
                     obj.name,
                 )
-            self._uncollected.discard(obj)
 
         # Get the provided message stream name for singly nested scans
         message_stream_name: Optional[str] = msg.kwargs.get("name", None)
@@ -1093,6 +1092,11 @@ class RunBundler:
                     )
                 else:
                     await self._describe_collect(collect_objects[0])
+
+        # Only now do the objects count as collected: if we are interrupted while they
+        # are still being described, they are left to the backstop collection.
+        for obj in collect_objects:
+            self._uncollected.discard(obj)
 
         # Get the indicies from the collect objects
         coros = [maybe_await(get_index()) for get_index in indices]
